@@ -2,6 +2,9 @@ package main
 
 import (
 	"fmt"
+	"os"
+	"runtime"
+	"runtime/debug"
 	"math/big"
 	"sort"
 	"strings"
@@ -16,6 +19,7 @@ type HarnessSpec struct {
 	Prop     string
 	Name     string // function name, e.g. zzH05a
 	Pkg      string // import path of the package the harness is overlaid into
+	Extra    []string // further packages whose harness overlays are needed
 	Tier     string // "quick" (both tiers) or "thorough" (thorough only)
 	Unwind   int
 	Explore  bool // goroutine tier
@@ -75,6 +79,7 @@ type HarnessRun struct {
 	schedBudget int
 	alwaysFeas  bool
 	stubs       map[*ssa.Function]*ssa.Function
+	stubs2      map[stubKey]*ssa.Function
 	stubNames   map[string]*ssa.Function
 	cexSeen     map[string]bool
 	known       []KnownFinding
@@ -86,7 +91,7 @@ func newHarnessRun(spec *HarnessSpec, tier string) *HarnessRun {
 		Spec: spec, ObligationIDs: map[string]int{}, DischargedIDs: map[string]int{},
 		EndKinds: map[string]int{}, Covers: map[string]int{}, KnownHits: map[string]string{},
 		Funcs: map[string]bool{}, Assumptions: map[string]bool{}, Stats: newStats(),
-		stubs: map[*ssa.Function]*ssa.Function{}, cexSeen: map[string]bool{},
+		stubs: map[*ssa.Function]*ssa.Function{}, stubs2: map[stubKey]*ssa.Function{}, cexSeen: map[string]bool{},
 	}
 	h.maxSteps = spec.MaxSteps
 	if h.maxSteps == 0 {
@@ -116,24 +121,42 @@ func (h *HarnessRun) noteAssumption(a string) { h.Assumptions[a] = true }
 func (h *HarnessRun) stubFor(e *Exec, fn *ssa.Function, caller *ssa.Function) *ssa.Function {
 	if caller != nil && strings.HasPrefix(caller.Name(), "zz") {
 		// harness code calls the real thing
-		if caller.Pkg == e.hpkg {
-			return nil
+		return nil
+	}
+	var cpkg *ssa.Package
+	if caller != nil {
+		cpkg = caller.Pkg
+		if cpkg == nil && caller.Parent() != nil {
+			cpkg = caller.Parent().Pkg
 		}
 	}
-	if st, ok := h.stubs[fn]; ok {
+	key := stubKey{fn, cpkg}
+	if st, ok := h.stubs2[key]; ok {
 		return st
 	}
 	var st *ssa.Function
 	if fn.Pkg != nil || fn.Signature.Recv() != nil {
 		name := stubName(fn)
 		if name != "" {
-			if f := e.hpkg.Func(name); f != nil && f != fn {
-				st = f
+			if cpkg != nil && cpkg != e.hpkg {
+				if f := cpkg.Func(name); f != nil && f != fn {
+					st = f
+				}
+			}
+			if st == nil {
+				if f := e.hpkg.Func(name); f != nil && f != fn {
+					st = f
+				}
 			}
 		}
 	}
-	h.stubs[fn] = st
+	h.stubs2[key] = st
 	return st
+}
+
+type stubKey struct {
+	fn  *ssa.Function
+	pkg *ssa.Package
 }
 
 // stubName: zzStub_<pkgname>_<Recv>_<Name>
@@ -173,6 +196,9 @@ func stubName(fn *ssa.Function) string {
 
 func (h *HarnessRun) pathEnded(e *Exec, s *State, pe pathEnd) {
 	h.EndKinds[pe.kind]++
+	if progressLog {
+		fmt.Fprintf(os.Stderr, "[%s] path end %s %s steps=%d pc=%d feas=%d at %s\n", h.Spec.Name, pe.kind, pe.msg, s.steps, len(s.pc), h.FeasQueries, e.where(s))
+	}
 	switch pe.kind {
 	case "done":
 		h.PathsDone++
@@ -370,6 +396,52 @@ func (h *HarnessRun) mapReverse(e *Exec, s *State) bool      { return false }
 
 // ---------- running one harness ----------
 
+// work queue shared by the workers of one harness
+type workQ struct {
+	mu     sync.Mutex
+	cond   *sync.Cond
+	items  []*State
+	active int
+}
+
+func newWorkQ() *workQ {
+	q := &workQ{}
+	q.cond = sync.NewCond(&q.mu)
+	return q
+}
+
+func (q *workQ) push(ss ...*State) {
+	q.mu.Lock()
+	q.items = append(q.items, ss...)
+	q.mu.Unlock()
+	q.cond.Broadcast()
+}
+
+func (q *workQ) pop() (*State, bool) {
+	q.mu.Lock()
+	defer q.mu.Unlock()
+	for len(q.items) == 0 {
+		if q.active == 0 {
+			q.cond.Broadcast()
+			return nil, false
+		}
+		q.cond.Wait()
+	}
+	s := q.items[len(q.items)-1]
+	q.items = q.items[:len(q.items)-1]
+	q.active++
+	return s, true
+}
+
+func (q *workQ) done() {
+	q.mu.Lock()
+	q.active--
+	q.mu.Unlock()
+	q.cond.Broadcast()
+}
+
+var cpuSem = make(chan struct{}, runtime.NumCPU())
+
 func (h *HarnessRun) run(prog *ssa.Program, hpkg *ssa.Package, base *State, tier string, known []KnownFinding) {
 	start := time.Now()
 	h.known = known
@@ -382,57 +454,158 @@ func (h *HarnessRun) run(prog *ssa.Program, hpkg *ssa.Package, base *State, tier
 	if tier == "thorough" {
 		timeout = 600000
 	}
-	pf := NewPortfolio(h.Stats, timeout, tier == "thorough")
-	defer pf.Close()
-	e := &Exec{prog: prog, hpkg: hpkg, pf: pf, h: h, unwind: h.Spec.Unwind, explore: h.Spec.Explore}
-	if e.unwind == 0 {
-		e.unwind = 64
+	nw := runtime.NumCPU()
+	if h.Spec.Explore {
+		nw = runtime.NumCPU()
 	}
+	q := newWorkQ()
+	shards := make([]*HarnessRun, nw)
+	var wg sync.WaitGroup
+	mkExec := func(sh *HarnessRun) *Exec {
+		pf := NewPortfolio(h.Stats, timeout, tier == "thorough")
+		e := &Exec{prog: prog, hpkg: hpkg, pf: pf, h: sh, unwind: h.Spec.Unwind, explore: h.Spec.Explore, topQ: q}
+		if e.unwind == 0 {
+			e.unwind = 64
+		}
+		return e
+	}
+	// initial state
 	s := base.clone()
 	s.gs = []*G{{id: 0, status: GRunnable, name: "harness"}}
 	s.cur = 0
-	func() {
-		defer func() {
-			if r := recover(); r != nil {
-				h.Incon = append(h.Incon, Inconclusive{h.Spec.Name, "engine-error", fmt.Sprint(r)})
-			}
-		}()
-		e.pushFrame(s, fn, nil, nil, nil)
+	{
+		e0 := mkExec(h)
+		e0.pushFrame(s, fn, nil, nil, nil)
+		e0.pf.Close()
 		h.noteFunc(fn)
 		h.States = 1
-		e.top(s)
-	}()
+	}
+	q.push(s)
+	for i := 0; i < nw; i++ {
+		sh := newHarnessRun(h.Spec, tier)
+		sh.Stats = h.Stats
+		sh.known = known
+		sh.params = h.params
+		sh.maxSteps = h.maxSteps
+		sh.schedBudget = h.schedBudget/nw + 1
+		shards[i] = sh
+		wg.Add(1)
+		go func(sh *HarnessRun) {
+			defer wg.Done()
+			var e *Exec
+			defer func() {
+				if e != nil {
+					e.pf.Close()
+				}
+			}()
+			for {
+				st, ok := q.pop()
+				if !ok {
+					return
+				}
+				cpuSem <- struct{}{}
+				if e == nil {
+					e = mkExec(sh)
+				}
+				func() {
+					defer func() {
+						if r := recover(); r != nil {
+							sh.Incon = append(sh.Incon, Inconclusive{h.Spec.Name, "engine-error", fmt.Sprintf("%v\n%s", r, debug.Stack())})
+						}
+					}()
+					e.process(st)
+				}()
+				<-cpuSem
+				q.done()
+			}
+		}(sh)
+	}
+	wg.Wait()
+	for _, sh := range shards {
+		h.absorb(sh)
+	}
 	h.Wall = time.Since(start).Seconds()
 }
 
-// top-level exploration: regions + scheduling.
-func (e *Exec) top(s0 *State) {
-	work := []*State{s0}
-	for len(work) > 0 {
-		s := work[len(work)-1]
-		work = work[:len(work)-1]
-		e.h.Paths++
-		_, _, escaped := e.region(s, nil)
-		for _, es := range escaped {
-			var next []*State
-			func() {
-				defer func() {
-					if r := recover(); r != nil {
-						switch x := r.(type) {
-						case pathEnd:
-							e.h.pathEnded(e, es, x)
-						case unsupportedErr:
-							e.h.pathEnded(e, es, pathEnd{"unsupported", x.msg})
-						case goPanic:
-							e.h.goPanicked(e, es, x.msg)
-						default:
-							panic(r)
-						}
-					}
-				}()
-				next = e.schedule(es)
-			}()
-			work = append(work, next...)
+func (h *HarnessRun) absorb(o *HarnessRun) {
+	h.States += o.States
+	h.Transitions += o.Transitions
+	h.Forks += o.Forks
+	h.Merges += o.Merges
+	h.FeasQueries += o.FeasQueries
+	h.SchedForks += o.SchedForks
+	h.SchedTruncated = h.SchedTruncated || o.SchedTruncated
+	h.Obligations += o.Obligations
+	h.Discharged += o.Discharged
+	h.Paths += o.Paths
+	h.PathsDone += o.PathsDone
+	for k, v := range o.ObligationIDs {
+		h.ObligationIDs[k] += v
+	}
+	for k, v := range o.DischargedIDs {
+		h.DischargedIDs[k] += v
+	}
+	for k, v := range o.EndKinds {
+		h.EndKinds[k] += v
+	}
+	for k, v := range o.Covers {
+		h.Covers[k] += v
+	}
+	seen := map[string]bool{}
+	for _, c := range h.Cex {
+		seen[c.Obligation+"|"+c.Kind] = true
+	}
+	for _, c := range o.Cex {
+		if !seen[c.Obligation+"|"+c.Kind] {
+			seen[c.Obligation+"|"+c.Kind] = true
+			h.Cex = append(h.Cex, c)
+		}
+	}
+	h.Incon = append(h.Incon, o.Incon...)
+	for k, v := range o.KnownHits {
+		if _, ok := h.KnownHits[k]; !ok {
+			h.KnownHits[k] = v
+		}
+	}
+	for k := range o.Funcs {
+		h.Funcs[k] = true
+	}
+	for k := range o.Assumptions {
+		h.Assumptions[k] = true
+	}
+	for _, sm := range o.Samples {
+		if len(h.Samples) < 4 {
+			h.Samples = append(h.Samples, sm)
 		}
 	}
 }
+
+// process explores one top-level state: regions + scheduling; forks at the
+// top level go back to the shared queue.
+func (e *Exec) process(s *State) {
+	e.h.Paths++
+	_, _, escaped := e.region(s, nil)
+	for _, es := range escaped {
+		var next []*State
+		func() {
+			defer func() {
+				if r := recover(); r != nil {
+					switch x := r.(type) {
+					case pathEnd:
+						e.h.pathEnded(e, es, x)
+					case unsupportedErr:
+						e.h.pathEnded(e, es, pathEnd{"unsupported", x.msg})
+					case goPanic:
+						e.h.goPanicked(e, es, x.msg)
+					default:
+						panic(r)
+					}
+				}
+			}()
+			next = e.schedule(es)
+		}()
+		e.topQ.push(next...)
+	}
+}
+
+var progressLog = os.Getenv("VCHECK_PROGRESS") != ""
